@@ -1,10 +1,44 @@
 """C03 - wire-format conformance against an independent Rest.li 2.0 oracle."""
+import json, os
+import lib
 from props import codec_common
+
+
+def envelopes(scr, sdir, verdict, cov):
+    """Last clause of C03: request / response envelopes and protocol headers.  Call.tla's envelope table, checked on every
+    exchange between the generated client and the generated server (the same exchanges C02 replays)."""
+    r = lib.run_tlc(sdir, "MC_Call.tla", "MC_Call.cfg", workers=8, timeout=1800)
+    if not r.ok:
+        raise lib.Broken("Call.tla: %s violated" % r.violated)
+    rows = sorted(set(json.loads(x) for x in r.printed))
+    rf = os.path.join(scr.path, "calls.ndjson")
+    with open(rf, "w") as f:
+        for x in rows:
+            f.write(x + "\n")
+
+    def extra(d):
+        lib.vt_bindings(scr, d)
+        os.remove(os.path.join(d, "registry.go"))
+    binp = lib.go_module(scr, "e2e", "v2", extra_src=extra)
+    code, out, err, wall = lib.run_bin(binp, ["-in", rf], timeout=3000, cwd=os.path.dirname(binp))
+    if code != 0:
+        raise lib.Broken("e2e harness failed: %s" % err[-3000:])
+    for line in out.splitlines():
+        o = json.loads(line)
+        if o["kind"] == "violation" and o["key"].startswith("C03/"):
+            verdict.add(o["key"], o["what"], o["case"])
+        elif o["kind"] == "stats":
+            cov["envelopes_checked"] = o["stats"].get("envelopes_checked", 0)
+    cov["tlc_call"] = r.summary()
+    cov["states"] += r.distinct
+    cov["transitions"] += r.generated
+    cov["evaluations"] += cov.get("envelopes_checked", 0)
 
 
 def run(tier, seed, replay):
     return codec_common.run_codec("C03", ["C03/"], tier, seed,
-        "one case = one value of one VT schema; emit direction: 5 flavours compared with the specification's JSON tree (parsed by encoding/json) or ROR2 token stream; accept direction: 6 JSON variants (key order, whitespace, unknown fields first/last, unicode escapes), 2 escape variants x 3 ROR2 flavours, and the untyped reader",
-        ["the reference is the written protocol (Wire.tla) and RFC 3986; no Java peer exists in the sandbox",
-         "envelopes and headers are checked under C02",
-         "alternative escapes: JSON \\uXXXX for every character, ROR2 percent-encoding of every non-alphanumeric byte"])
+        "one case = one value of one VT schema; emit direction: 5 flavours compared with the specification's JSON tree (parsed by encoding/json) or ROR2 token stream; accept direction: 6 JSON variants (key order, whitespace, unknown fields first/last, unicode escapes), 2 escape variants x 3 ROR2 flavours, and the untyped reader; plus one case per exchange of the generated client and server (every VT method x argument class x configuration): body envelopes and protocol headers against Call.tla's envelope table",
+        ["the reference is the written protocol (Wire.tla, Call.tla's envelope table) and RFC 3986; no Java peer exists in the sandbox",
+         "envelope members are checked for presence and admissibility; their contents are values, covered by the value part",
+         "alternative escapes: JSON \\uXXXX for every character, ROR2 percent-encoding of every non-alphanumeric byte"],
+        extra=envelopes)
